@@ -32,6 +32,13 @@ CLAIMS = {
         "note": "R-DT (lib/props/c03.py) is trusted; priority policies without output values, output entries outside the allowed output values, compound defaults and aggregation over compound or non-numeric outputs are undecided. Table generator, entry specs, steering and writers are lib/gdraw.py (self-validated against the shipped drawings by C19). Negative end points are avoided in entries (the FEEL grammar of the repository rejects them in unary tests).",
         "design_ref": "DESIGN.md §3 C03",
     },
+    "C04": {
+        "category": "exploration",
+        "technique": "reference-model oracle (topological evaluation of the generated requirement graph with R-FEEL) + metamorphic irrelevance monitor over observed evaluate_invocable calls",
+        "text": "Generated acyclic requirement graphs (1-4 typed inputs, 2-8 decisions of every boxed kind: literal, context with and without result entry, invocation, relation, function, decision table; 0-3 knowledge models with literal / context / table bodies and BKM->BKM requirements, invoked by literal call and by boxed invocation; 0-2 decision services with input / encapsulated / output decisions, used as invocables and as functions; forced shapes diamond, BKM chain, service, decision required directly and through a service, several output decisions) are written as DMN XML and loaded by the real parser and ModelEvaluator; every invocable is called with 8 input contexts (full, partial, nulls, wrongly typed, empty) and with the same contexts padded by entries outside its requirement closure; each value is compared with the reference evaluation and the padded result with the unpadded one. Quick 3000 models (~290k calls), thorough 60000.",
+        "note": "Reference = lib/gdrg.py + lib/rfeel.py; logic is drawn from an arithmetic / string / list fragment in which R-FEEL is unambiguous; non-conforming arguments for typed formal parameters are undecided; entries named like a required decision or knowledge model are not generated.",
+        "design_ref": "DESIGN.md §3 C04",
+    },
     "C05": {
         "category": "exploration",
         "technique": "crash/panic channel monitor (catch_unwind + panic hook + child-process death + watchdog) over hostile workloads, on debug and release builds in full and an ASan slice",
